@@ -291,3 +291,51 @@ def state_iteration(prog, fn, v, t):
             return {"source": strip_iter_calls(it), "form": "loop", "init": init_, "cases": cases,
                     "early_exit": any(c == "break" for _, c in lp["exits"]), "loop": lp}
     return None
+
+
+def function_cases(prog, fn, argsub=None):
+    """Path-sensitive summary of a loop-free function: for every acyclic path from entry to a return, the branch facts evaluated
+    *on that path* (a flag assigned differently in two arms has, on each path, the value of the arm taken) and the returned value:
+    [{facts: [fact], value: term}]"""
+    from .guards import switch_facts
+    out = []
+    for (blocks, edges, end) in fn_paths(fn):
+        if end != "return":
+            continue
+        env = {}
+        cx = TermCx(prog, fn, argsub, 1 if argsub else 0)
+        facts = []
+        taken = {(e[0]): e for e in edges}
+        for b in blocks:
+            blk = fn.blocks[b]
+            for i, s in enumerate(blk.stmts):
+                if s["k"] != "assign":
+                    continue
+                cx.memo = dict(env)
+                cx.lazy = {}; cx.op_memo = {}
+                cx.busy = set()
+                store(cx, fn, env, s["place"], cx.rvalue(s["rv"], (fn.key, b, i)))
+            t = blk.term
+            if t["k"] == "call" and t.get("dest") is not None:
+                cx.memo = dict(env)
+                cx.lazy = {}; cx.op_memo = {}
+                cx.busy = set()
+                store(cx, fn, env, t["dest"], cx.call(t, (fn.key, b)))
+            elif t["k"] == "switch" and b in taken:
+                cx.memo = dict(env)
+                cx.lazy = {}; cx.op_memo = {}
+                cx.busy = set()
+                d = cx.operand(t["discr"])
+                if d[0] == "const" and isinstance(d[2], int) and t["dty"] == "bool" and (taken[b][2] != "0") != bool(d[2]):
+                    facts = None        # infeasible: a flag with a known value on this path, tested the other way
+                    break
+                for (e, fa) in switch_facts(fn, b, t, d):
+                    if e == taken[b]:
+                        facts.append(fa)
+        if facts is None:
+            continue
+        cx.memo = dict(env)
+        cx.lazy = {}; cx.op_memo = {}
+        cx.busy = set()
+        out.append({"facts": facts, "value": env.get(0, cx.local(0)), "blocks": blocks})
+    return out
